@@ -203,9 +203,12 @@ def rule_nested(prog, rep):
     valid for a custom scalar`) lets `{k: $undefined}` through."""
     from ..flow import loop_body, loop_headers, must_pass
     rep.floor("C17.NESTED", 2)
-    f = prog.fn(r"^apollo_compiler::validation::value::value_of_correct_type$")
+    f0 = prog.fn(r"^apollo_compiler::validation::value::value_of_correct_type$")
     sites = construction_sites(prog)
     direct = set(sites.get("UndefinedVariable", set()))
+    # private helpers an arm was extracted into are folded back in (the visitors stay calls)
+    keep = "|".join(re.escape(prog.fns[u].name) for u in sorted(direct | {f0.uid}))
+    f = prog.inline(f0, keep="^(%s|.*::unsupported_type)$" % keep)
     visitors = {f.uid}
     for u in direct:
         g = prog.fns[u]
@@ -215,11 +218,11 @@ def rule_nested(prog, rep):
     def closure_visits(c):
         """a combinator call (for_each, ...) whose closure argument visits the nested values"""
         for a in c.args:
-            m = re.search(r"closure:.*?(\{closure#\d+\})", f.sym(a))
+            m = re.search(r"closure:(.*?\{closure#\d+\})", f.sym(a))
             if not m:
                 continue
             for h in prog.fns.values():
-                if h.kind == "closure" and h.parent == f.uid and h.name.endswith(m.group(1)) and any(k.uid in visitors for k in h.live_calls()):
+                if h.kind == "closure" and h.name == m.group(1) and any(k.uid in visitors for k in h.live_calls()):
                     return True
         return False
 
@@ -263,7 +266,8 @@ def rule_varpos(prog, rep):
     named types (which accepts `In` where `In!` is expected and `[Int]` where `Int` is)."""
     from ..flow import must_pass
     rep.floor("C17.VARPOS", 1)
-    f = prog.fn(r"^apollo_compiler::validation::value::value_of_correct_type$")
+    f = prog.inline(prog.fn(r"^apollo_compiler::validation::value::value_of_correct_type$"),
+                    keep=r"::(value_of_correct_type|unsupported_type|is_assignable_to|is_variable_usage_allowed|validate_variable_usage)$")
     sw = None
     for b in sorted(f.live_blocks()):
         info = f.switch_info(b)
